@@ -26,6 +26,10 @@ type ReqInfo struct {
 	Timeout   int64 // context timeout when issued
 	Settlement string // "" | earned | refunded_bad | refunded_expired | expired_super
 	SettledAt int64
+	// Answered: a respond message for this request succeeded (whatever its output) — recorded from the message's
+	// success alone, not from any marker or record the module keeps
+	Answered   bool
+	AnsweredAt int64
 }
 
 type BatchInfo struct {
@@ -253,6 +257,14 @@ func (t *Tracker) Apply(x *Exec, r *StepRec) {
 	}
 	if r.Kind == "msgfail" || r.Kind == "modfail" || r.Kind == "commit" || r.Kind == "begin" {
 		return
+	}
+	if r.Kind == "msg" && r.Msg.T == "respond" {
+		if m, ok := r.SdkMsg.(*types.MsgRespondService); ok {
+			if ri := t.Reqs[hx(m.RequestId)]; ri != nil && !ri.Answered {
+				ri.Answered = true
+				ri.AnsweredAt = post.Height
+			}
+		}
 	}
 	for _, bk := range post.BindingKeys() {
 		if bi := t.Binds[bk]; bi != nil && bi.BelowSinceParamChange {
